@@ -256,7 +256,7 @@ def hex16 (v : UInt64) : String :=
   String.ofList (List.replicate (16 - s.length) '0') ++ s
 
 def errNum : Sqfs.IoLoops.Err → String
-  | .ok => "0" | .io => "3" | .oob => "8" | .compressor => "4" | .fuel => "fuel"
+  | .ok => "0" | .io => "3" | .oob => "8" | .compressor => "4" | .fuel => "fuel" | _ => "other"
 
 def showLines (r : Sqfs.C07Lines.Lines) : String :=
   match r.err with
